@@ -1,4 +1,5 @@
 #!/bin/bash
 # tools/sweep.sh "<seeds>" PROP...   -- quick tier of each property at each seed; prints one line per run
+D="$(cd "$(dirname "$0")/.." && pwd)"
 SEEDS=$1; shift
-for p in "$@"; do for s in $SEEDS; do VERIF_SEED=$s /verif/bin/check $p 2>&1 | grep "^C[0-9][0-9] \|^VIOLATION\|^INCONCLUSIVE\|^KNOWN" | tr '\n' ' '; echo; done; done
+for p in "$@"; do for s in $SEEDS; do VERIF_SEED=$s $D/bin/check $p 2>&1 | grep "^C[0-9][0-9] \|^VIOLATION\|^INCONCLUSIVE\|^KNOWN\|^UNREPRO\|key=" | tr '\n' ' ' | cut -c1-400; echo; done; done
